@@ -383,7 +383,7 @@ func (fa *FuncAn) bufPlaces(v ssa.Value, depth int, seen map[ssa.Value]bool) ([]
 			switch src.(type) {
 			case *ssa.Call, *ssa.MakeSlice, *ssa.Phi:
 				if _, isLit := literalElems(src); !isLit {
-					if sub, sl := fa.bufPlaces(src, depth+1, seen); len(sub) > 1 {
+					if sub, sl := fa.bufPlaces(src, depth+1, seen); len(sub) > 1 || (len(sub) == 1 && strings.HasPrefix(sub[0].What, "Σ")) {
 						for _, p := range sub {
 							if p.End == "" {
 								out = append(out, mkOpenPlace(l.add(p.o), p.What, p.At))
